@@ -1761,6 +1761,11 @@ def c17(run, an=None, tk=None):
     an = an or Analysis(run)
     tk = tk or Tokens(run, an)
     out = []
+    # an entry whose acknowledgement was consumed must give its arena bytes and its slot back at once
+    # (judged from the history of consumed acknowledgements, not from the client's own bookkeeping)
+    for v in ack_effects(run, an, tk, "C17", ("PUBACK", "PUBREC", "PUBCOMP", "SUBACK", "UNSUBACK")):
+        v["kind"] = "acknowledged-entry-not-released"
+        out.append(v)
     for t in tk.tokens:
         txs = [(w, p) for (w, p) in t["tx"] if p["type"] != "PUBREL"]
         if len(txs) > 1:
